@@ -169,6 +169,9 @@ impl Scenario for Build {
             for a in std::mem::take(&mut cx().sys.anomalies) {
                 if !a.contains("MAP_FIXED") {
                     cx().violate("C15", "C15/address-space", "address space anomaly".into(), format!("step {} {}: {}", step, line, a));
+                    if a.contains("second munmap") || a.contains("never mapped") || a.contains("length") {
+                        cx().violate("C12", if a.contains("second munmap") { "C12/double-unmap" } else if a.contains("length") { "C12/wrong-length" } else { "C12/foreign-munmap" }, format!("construction request: {}", a.split(" #").next().unwrap_or("")), format!("step {} {}: {}", step, line, a));
+                    }
                 }
             }
         }
@@ -209,7 +212,7 @@ fn one_request(step: usize) -> (String, bool) {
     let form = c.a(8);
     let prot = [libc::PROT_READ | libc::PROT_WRITE, libc::PROT_READ | libc::PROT_WRITE, libc::PROT_READ, libc::PROT_NONE][c.a(4) as usize];
     let with_file = c.a(2) == 0;
-    let mut flags = if with_file { [libc::MAP_SHARED, libc::MAP_SHARED | libc::MAP_NORESERVE, libc::MAP_PRIVATE, 0, libc::MAP_SHARED | libc::MAP_PRIVATE][c.a(5) as usize] } else { [libc::MAP_PRIVATE | libc::MAP_ANONYMOUS, libc::MAP_PRIVATE | libc::MAP_ANONYMOUS | libc::MAP_NORESERVE, libc::MAP_SHARED | libc::MAP_ANONYMOUS, libc::MAP_ANONYMOUS, libc::MAP_PRIVATE][c.a(5) as usize] };
+    let mut flags = if with_file { [libc::MAP_SHARED, libc::MAP_SHARED | libc::MAP_NORESERVE, libc::MAP_PRIVATE, 0, libc::MAP_SHARED | libc::MAP_PRIVATE, libc::MAP_PRIVATE | libc::MAP_ANONYMOUS, libc::MAP_SHARED | libc::MAP_ANONYMOUS][c.a(7) as usize] } else { [libc::MAP_PRIVATE | libc::MAP_ANONYMOUS, libc::MAP_PRIVATE | libc::MAP_ANONYMOUS | libc::MAP_NORESERVE, libc::MAP_SHARED | libc::MAP_ANONYMOUS, libc::MAP_ANONYMOUS, libc::MAP_PRIVATE][c.a(5) as usize] };
     if c.a(6) == 0 {
         flags |= libc::MAP_FIXED;
     }
@@ -325,7 +328,7 @@ fn one_request(step: usize) -> (String, bool) {
                         Some(m) if m.len == size && m.prot == eff_prot && m.flags == eff_flags && m.off as u64 == if with_file { offset } else { 0 } => {}
                         other => cx().violate("C15", "C15/attributes", "mapping differs from the request".into(), format!("{}: the mapping behind the region is {:?}", desc, other.map(|m| (m.len, m.prot, m.flags, m.off)))),
                     }
-                    if let (Some((f, len, true)), true) = (&file, eff_flags & libc::MAP_SHARED != 0 && eff_prot == libc::PROT_READ | libc::PROT_WRITE && eff_flags & libc::MAP_PRIVATE == 0) {
+                    if let (Some((f, len, true)), true) = (&file, eff_flags & libc::MAP_SHARED != 0 && eff_flags & libc::MAP_ANONYMOUS == 0 && eff_prot == libc::PROT_READ | libc::PROT_WRITE && eff_flags & libc::MAP_PRIVATE == 0) {
                         if *len >= offset + size as u64 && offset + (size as u64) < (1 << 16) {
                             let rr = &reg;
                             check_coherence(reg.as_ptr(), size, f, offset, |d, at| rr.as_volatile_slice().write(d, at).is_ok(), &desc);
